@@ -58,6 +58,9 @@ pub struct Case {
     /// false: the handler is not registered before the run; a `reg` line registers it while the script runs
     #[serde(default = "yes")]
     pub handler_initially: bool,
+    /// CRLF line endings
+    #[serde(default)]
+    pub crlf: bool,
     pub init: Vec<(String, String)>,
     pub lines: Vec<Line>,
     pub budget: u64,
@@ -697,6 +700,7 @@ pub fn generate_case(rng: &mut Rng) -> Case {
     Case {
         entropy: rng.next_u64(),
         file_mode: rng.chance(1, 4),
+        crlf: rng.chance(1, 12),
         handler_initially: rng.chance(2, 3),
         handler,
         init,
@@ -712,7 +716,10 @@ pub struct RealEnd {
 }
 
 pub fn run_real(case: &Case, env: &WorkerEnv, run_dir: &str, halt: Option<std::sync::Arc<std::sync::atomic::AtomicBool>>) -> (Result<Context, ScriptError>, String) {
-    let text = render(&case.lines);
+    let mut text = render(&case.lines);
+    if case.crlf {
+        text = text.replace('\n', "\r\n");
+    }
     let context = build_context(case);
     let out = SimWriter::new("out", vec![]);
     let err = SimWriter::new("err", vec![]);
